@@ -67,6 +67,14 @@ pub mod dummy;
 pub mod handler;
 mod listen_opts;
 mod translation;
+#[cfg(libp2p_verif)]
+pub mod verif_c08;
+#[cfg(libp2p_verif)]
+pub mod verif_c09;
+#[cfg(libp2p_verif)]
+pub use connection::verif_c10;
+#[cfg(libp2p_verif)]
+pub mod verif_c11;
 
 /// Bundles all symbols required for the [`libp2p_swarm_derive::NetworkBehaviour`] macro.
 #[doc(hidden)]
